@@ -139,11 +139,14 @@ pub struct Enc<'r> {
     pub vary: bool,
     /// positions (byte offset, length) of literal contents, for C08
     pub literal_spans: Vec<(usize, usize)>,
+    /// numerals written: (byte offset, length, width of the field in bits, inside a bracketed response code)
+    pub num_spans: Vec<(usize, usize, u8, bool)>,
+    pub in_code: bool,
 }
 
 impl<'r> Enc<'r> {
     pub fn new(rng: &'r mut Rng, vary: bool) -> Self {
-        Enc { out: vec![], rng, vary, literal_spans: vec![] }
+        Enc { out: vec![], rng, vary, literal_spans: vec![], num_spans: vec![], in_code: false }
     }
     pub fn raw(&mut self, s: &[u8]) {
         self.out.extend_from_slice(s);
@@ -170,20 +173,30 @@ impl<'r> Enc<'r> {
         }
     }
     pub fn num(&mut self, n: u64) {
+        self.num_bits(n, 64)
+    }
+    pub fn num32(&mut self, n: u64) {
+        self.num_bits(n, 32)
+    }
+    fn num_bits(&mut self, n: u64, bits: u8) {
+        let start = self.out.len();
         if self.vary && self.rng.chance(1, 6) {
-            let z = 1 + { let big = self.rng.chance(1, 5); self.rng.below(if big { 30 } else { 3 }) };
+            let big = self.rng.chance(1, 5);
+            let z = 1 + self.rng.below(if big { 30 } else { 3 });
             for _ in 0..z {
                 self.out.push(b'0');
             }
         }
         self.raw(n.to_string().as_bytes());
+        let in_code = self.in_code;
+        self.num_spans.push((start, self.out.len() - start, bits, in_code));
     }
     pub fn nil(&mut self) {
         self.kw("NIL");
     }
     pub fn literal(&mut self, b: &[u8]) {
         self.out.push(b'{');
-        self.num(b.len() as u64);
+        self.num32(b.len() as u64);
         self.raw(b"}\r\n");
         self.literal_spans.push((self.out.len(), b.len()));
         self.raw(b);
@@ -318,17 +331,17 @@ fn uid_set(rng: &mut Rng) -> Vec<UidSetMember> {
 fn enc_range(e: &mut Enc, r: &std::ops::RangeInclusive<u32>, allow_single: bool) {
     let (a, b) = (*r.start(), *r.end());
     if a == b && allow_single && e.rng.chance(1, 2) {
-        e.num(a as u64);
+        e.num32(a as u64);
         return;
     }
     if e.vary && e.rng.chance(1, 2) {
-        e.num(b as u64);
+        e.num32(b as u64);
         e.raw(b":");
-        e.num(a as u64);
+        e.num32(a as u64);
     } else {
-        e.num(a as u64);
+        e.num32(a as u64);
         e.raw(b":");
-        e.num(b as u64);
+        e.num32(b as u64);
     }
 }
 fn enc_uid_set(e: &mut Enc, s: &[UidSetMember]) {
@@ -337,7 +350,7 @@ fn enc_uid_set(e: &mut Enc, s: &[UidSetMember]) {
             e.raw(b",");
         }
         match m {
-            UidSetMember::Uid(n) => e.num(*n as u64),
+            UidSetMember::Uid(n) => e.num32(*n as u64),
             UidSetMember::UidRange(r) => enc_range(e, r, false),
         }
     }
@@ -372,6 +385,7 @@ fn response_code(rng: &mut Rng) -> ResponseCode<'static> {
 }
 fn enc_response_code(e: &mut Enc, c: &ResponseCode) {
     e.raw(b"[");
+    e.in_code = true;
     match c {
         ResponseCode::Alert => e.kw("ALERT"),
         ResponseCode::BadCharset(v) => {
@@ -409,25 +423,25 @@ fn enc_response_code(e: &mut Enc, c: &ResponseCode) {
         ResponseCode::TryCreate => e.kw("TRYCREATE"),
         ResponseCode::UidNext(n) => {
             e.kw("UIDNEXT ");
-            e.num(*n as u64)
+            e.num32(*n as u64)
         }
         ResponseCode::UidValidity(n) => {
             e.kw("UIDVALIDITY ");
-            e.num(*n as u64)
+            e.num32(*n as u64)
         }
         ResponseCode::Unseen(n) => {
             e.kw("UNSEEN ");
-            e.num(*n as u64)
+            e.num32(*n as u64)
         }
         ResponseCode::AppendUid(n, s) => {
             e.kw("APPENDUID ");
-            e.num(*n as u64);
+            e.num32(*n as u64);
             e.sp();
             enc_uid_set(e, s)
         }
         ResponseCode::CopyUid(n, a, b) => {
             e.kw("COPYUID ");
-            e.num(*n as u64);
+            e.num32(*n as u64);
             e.sp();
             enc_uid_set(e, a);
             e.sp();
@@ -446,6 +460,7 @@ fn enc_response_code(e: &mut Enc, c: &ResponseCode) {
         ResponseCode::MetadataNoPrivate => e.kw("METADATA NOPRIVATE"),
         _ => {}
     }
+    e.in_code = false;
     e.raw(b"]");
 }
 
@@ -648,7 +663,7 @@ fn body_extension(rng: &mut Rng, depth: usize) -> BodyExtension<'static> {
 }
 fn enc_body_extension(e: &mut Enc, x: &BodyExtension) {
     match x {
-        BodyExtension::Num(n) => e.num(*n as u64),
+        BodyExtension::Num(n) => e.num32(*n as u64),
         BodyExtension::Str(s) => e.nstr(s),
         BodyExtension::List(l) => {
             e.raw(b"(");
@@ -817,7 +832,7 @@ fn enc_body_fields(e: &mut Enc, c: &BodyContentCommon, o: &BodyContentSinglePart
     e.sp();
     enc_content_encoding(e, &o.transfer_encoding);
     e.sp();
-    e.num(o.octets as u64);
+    e.num32(o.octets as u64);
 }
 /// `extensible` = BODYSTRUCTURE form; the non-extensible BODY form carries no extension data
 pub fn enc_body_structure(e: &mut Enc, b: &BodyStructure, extensible: bool) {
@@ -844,7 +859,7 @@ pub fn enc_body_structure(e: &mut Enc, b: &BodyStructure, extensible: bool) {
             e.sp();
             enc_body_fields(e, c, o);
             e.sp();
-            e.num(*lines as u64);
+            e.num32(*lines as u64);
             if extensible {
                 let t = ExtTail { disposition: &c.disposition, language: &c.language, location: &c.location, extension };
                 let md5 = o.md5.clone();
@@ -864,7 +879,7 @@ pub fn enc_body_structure(e: &mut Enc, b: &BodyStructure, extensible: bool) {
             e.sp();
             enc_body_structure(e, body, extensible);
             e.sp();
-            e.num(*lines as u64);
+            e.num32(*lines as u64);
             if extensible {
                 let t = ExtTail { disposition: &c.disposition, language: &c.language, location: &c.location, extension };
                 let md5 = o.md5.clone();
@@ -966,7 +981,7 @@ fn enc_section_path(e: &mut Enc, p: &SectionPath) {
                 if i > 0 {
                     e.raw(b".");
                 }
-                e.num(*n as u64);
+                e.num32(*n as u64);
             }
             if let Some(m) = m {
                 e.raw(b".");
@@ -1050,7 +1065,7 @@ pub fn enc_attribute_value(e: &mut Enc, a: &AttributeValue) {
             e.raw(b"]");
             if let Some(n) = index {
                 e.raw(b"<");
-                e.num(*n as u64);
+                e.num32(*n as u64);
                 e.raw(b">");
             }
             e.sp();
@@ -1091,7 +1106,7 @@ pub fn enc_attribute_value(e: &mut Enc, a: &AttributeValue) {
         }
         AttributeValue::Rfc822Size(n) => {
             e.kw("RFC822.SIZE ");
-            e.num(*n as u64);
+            e.num32(*n as u64);
         }
         AttributeValue::Rfc822Text(x) => {
             e.kw("RFC822.TEXT ");
@@ -1099,7 +1114,7 @@ pub fn enc_attribute_value(e: &mut Enc, a: &AttributeValue) {
         }
         AttributeValue::Uid(n) => {
             e.kw("UID ");
-            e.num(*n as u64);
+            e.num32(*n as u64);
         }
         AttributeValue::GmailLabels(v) => enc_gmail_labels(e, v),
         AttributeValue::GmailMsgId(n) => {
@@ -1168,23 +1183,23 @@ fn enc_status_attribute(e: &mut Enc, a: &StatusAttribute) {
         }
         StatusAttribute::Messages(n) => {
             e.kw("MESSAGES ");
-            e.num(*n as u64)
+            e.num32(*n as u64)
         }
         StatusAttribute::Recent(n) => {
             e.kw("RECENT ");
-            e.num(*n as u64)
+            e.num32(*n as u64)
         }
         StatusAttribute::UidNext(n) => {
             e.kw("UIDNEXT ");
-            e.num(*n as u64)
+            e.num32(*n as u64)
         }
         StatusAttribute::UidValidity(n) => {
             e.kw("UIDVALIDITY ");
-            e.num(*n as u64)
+            e.num32(*n as u64)
         }
         StatusAttribute::Unseen(n) => {
             e.kw("UNSEEN ");
-            e.num(*n as u64)
+            e.num32(*n as u64)
         }
         _ => {}
     }
@@ -1423,7 +1438,7 @@ pub fn enc_response(e: &mut Enc, r: &Response) {
             }
         }
         Response::Expunge(n) => {
-            e.num(*n as u64);
+            e.num32(*n as u64);
             e.kw(" EXPUNGE");
         }
         Response::Vanished { earlier, uids } => {
@@ -1441,7 +1456,7 @@ pub fn enc_response(e: &mut Enc, r: &Response) {
             }
         }
         Response::Fetch(n, attrs) => {
-            e.num(*n as u64);
+            e.num32(*n as u64);
             e.kw(" FETCH ");
             e.raw(b"(");
             for (i, a) in attrs.iter().enumerate() {
@@ -1454,11 +1469,11 @@ pub fn enc_response(e: &mut Enc, r: &Response) {
         }
         Response::MailboxData(d) => match d {
             MailboxDatum::Exists(n) => {
-                e.num(*n as u64);
+                e.num32(*n as u64);
                 e.kw(" EXISTS");
             }
             MailboxDatum::Recent(n) => {
-                e.num(*n as u64);
+                e.num32(*n as u64);
                 e.kw(" RECENT");
             }
             MailboxDatum::Flags(v) => {
@@ -1490,7 +1505,7 @@ pub fn enc_response(e: &mut Enc, r: &Response) {
                 e.kw(if matches!(d, MailboxDatum::Search(_)) { "SEARCH" } else { "SORT" });
                 for n in v {
                     e.sp();
-                    e.num(*n as u64);
+                    e.num32(*n as u64);
                 }
                 if e.vary && e.rng.chance(1, 4) {
                     e.sp(); // trailing space (tolerated)
